@@ -133,7 +133,7 @@ def parse_template(text):
                 cur.trait = arg.strip() or "|"
             elif cmd == "rename":
                 cur.rename = arg.strip()
-            elif cmd in ("drop_derive", "keep_pub", "noprobe", "noimpl"):
+            elif cmd in ("drop_derive", "keep_pub", "noprobe", "noimpl", "plain", "implspec"):
                 cur.flags.add(cmd)
             else:
                 raise ValueError("unknown directive: " + line)
@@ -375,17 +375,31 @@ def generate(unit, probe=False, repo=None):
         }
         pre = b.attrs
         post = ""
+        if "plain" in b.flags and item.kind == "fn":
+            # attribute form: the function text stays plain Rust OUTSIDE verus!{}; the contract is an attribute
+            opts["plain"] = True
+            if b.clauses.strip():
+                opts["attr_spec"] = "#[verus_spec(" + ((b.ret + " =>\n") if b.ret else "") + b.clauses.rstrip("\n") + "\n)]\n"
+            opts["ret"] = None
+            opts["clauses"] = ""
+            drops.append("contract attached as #[verus_spec] attribute (function text outside verus!{})")
         if item.kind == "fn" and b.trait is not None:
             ntrait += 1
             tname = f"__Verif{ntrait}_{b.rename or item.name}"
             gen, ty, where = split_generics(item.parent.header_raw)
             tgen_decl, _, tgen_use = b.trait.partition("|")
+            opts["drop_const"] = True   # trait methods cannot be `const fn`
             sig_opts = dict(opts)
             sig_opts["sig_only"] = True
             sig_opts["probe"] = False
-            sigtext, _ = extract.emit_item(item, sig_opts, [])
             body_opts = dict(opts)
             body_opts["clauses"] = ""
+            if "implspec" in b.flags:
+                # ensures-only contract that mentions fields of the concrete type: Verus accepts it on the impl
+                # method (strengthening), the generated trait declaration stays bare
+                sig_opts["clauses"] = ""
+                body_opts["clauses"] = opts["clauses"]
+            sigtext, _ = extract.emit_item(item, sig_opts, [])
             body_opts["ret"] = b.ret
             text, lost = extract.emit_item(item, body_opts, drops)
             pre += f"trait {tname}{tgen_decl.strip()} {{\n{sigtext}\n}}\nimpl{gen} {tname}{tgen_use.strip()} for {ty} {where} {{\n"
@@ -423,7 +437,7 @@ def scan_trusted(text):
     res = []
     for m in re.finditer(r"assume_specification\s*(?:<[^\[]*>)?\s*\[\s*([^\]]+?)\s*\]", text):
         res.append("assume_specification " + " ".join(m.group(1).split()))
-    for m in re.finditer(r"#\[verifier::external_body\]\s*(?:pub\s+)?(?:proof\s+|broadcast\s+|uninterp\s+|closed\s+|open\s+)*(fn|struct)\s+(\w+)", text):
+    for m in re.finditer(r"#\[verifier::external_body\]\s*(?:pub\s+)?(?:proof\s+|broadcast\s+|uninterp\s+|closed\s+|open\s+|exec\s+)*(fn|struct|const)\s+(\w+)", text):
         res.append(f"external_body {m.group(1)} {m.group(2)}")
     for m in re.finditer(r"\b(assume|admit)\s*\(", text):
         res.append(m.group(1) + "()")
